@@ -11,8 +11,11 @@ CFG = dict(
         "the static typing relations HasDim (Lemmas/QtyDim.lean, expression fragment) and HasTy/ProgOK (Lemmas/QtyProg.lean, "
         "program fragment) are hand-written models of numbat's checker over dimension vectors indexed by base units; "
         "numbat's checker works over base dimensions — the harness checks on every run that base units and base "
-        "dimensions correspond one-to-one. The typing relations are monomorphic: every global, parameter and function "
-        "result has one dimension (generic functions are instantiated per program)",
+        "dimensions correspond one-to-one. Polymorphism is modelled semantically: the type of a global and the "
+        "signature of a function are the *sets of their monomorphic instances* (`let z = 0` has every dimension; "
+        "`fn f<D: Dim>(x: D) -> D^2` has one instance per D), a `let` must be typed at every instance of its type and a "
+        "function body at every instance of its signature; numbat's inference of these sets (type schemes) is C02's and "
+        "C16's subject, not modelled here",
         "Model/QtyProg.lean (evalP, evalArgs, runProg) is a hand-written model of what the compiler and the VM do for "
         "the fragment (one opcode per operator, strict && and ||, lazy conditional, arguments left to right, raw values "
         "of globals); it is tied to the code by the `mprog` stream: generated programs of the fragment run definition "
@@ -46,18 +49,19 @@ CLAIM = dict(
          "the hypotheses (Oblig/UnitTable). (2) Program fragment: expr_soundness / program_soundness / "
          "program_soundness_closed / program_no_incompatible — for every sequence of `let` and `fn` definitions typed "
          "by ProgOK (expressions as in (1) plus earlier globals, parameters, conversions `a -> unit expression`, the "
-         "six comparisons, && || !, boolean literals, if-then-else, and calls of first-order — possibly recursive — "
-         "user functions), running it with the model of the compiler+VM (evalP/runProg, any fuel) from a session that "
+         "six comparisons, && || !, boolean literals, if-then-else, and calls of first-order — possibly recursive, "
+         "possibly generic — user functions; polymorphic globals and generic signatures are sets of instances), running it with the model of the compiler+VM (evalP/runProg, any fuel) from a session that "
          "satisfies the invariant ends in a session in which every global agrees with its static type and every "
          "function is checked, or fails with a division by zero (or the model's fuel runs out); never with a unit "
          "incompatibility, never with an operand of the wrong kind. The model is tied to the code by the `mprog` "
          "stream (bit-exact raw values of all globals of generated programs of the fragment). The rest of the "
-         "property (generic and inferred polymorphism as such, where-clauses, structs, lists, unit and dimension "
+         "property (the inference of generic signatures, where-clauses, structs, lists, unit and dimension "
          "definitions) is checked on the real interpreter: generated type-directed programs, the raw value of every "
          "global — recursively through struct fields and list elements — against the static type the checker "
          "reports, and the kind of every run-time failure.",
     design_ref="DESIGN.md section 5 C01",
-    note="Partial: the theorems cover the monomorphic program fragment over exact arithmetic; polymorphism, structs and "
+    note="Partial: the theorems cover the program fragment (incl. generic functions and polymorphic lets, as instance "
+         "sets) over exact arithmetic; where-clauses, structs and "
          "lists are exploration-level (implementation oracle over generated programs). Proving the conversion rule and "
          "running the fragment on the interpreter exposed two more genuine defects (C01-convert-to-zero: `1 m -> 0`; "
          "C01-zero-nonfinite: a polymorphic zero times NaN), recorded as known findings next to the composite "
